@@ -124,7 +124,7 @@ def lib_witness_type(inp):
     return 'legacy'
 
 
-def realise(plan, with_private=False, allow_keyless=True):
+def realise(plan, with_private=False, allow_keyless=True, signatures=None):
     """Build the transaction through the library API. Returns the Transaction (unsigned)."""
     from bitcoinlib.transactions import Transaction
     from bitcoinlib.keys import Key
@@ -151,6 +151,8 @@ def realise(plan, with_private=False, allow_keyless=True):
                     sigs_required=inp['m'] if inp['kind'] in MS_KINDS else None, sort=bool(inp.get('sort')),
                     sequence=inp['seq'], compressed=inp['compressed'], value=inp['value'],
                     witness_type=lib_witness_type(inp),
+                    # (signatures collected elsewhere, handed over as data: DER + hash type, hex)
+                    **({'signatures': signatures[len(t.inputs)]} if signatures and signatures.get(len(t.inputs)) else {}),
                     # documented argument "locking script (scriptPubKey) of previous output if known"
                     **({'locking_script': prevout(inp)['spk']} if inp.get('give_spk') else {}))
     for o in plan['outputs']:
